@@ -17,6 +17,8 @@ import time
 import tokenize
 import traceback
 
+sys.path.insert(0, os.path.dirname(os.path.abspath(__file__)))
+
 sys.setrecursionlimit(20000)
 
 TRACKED = ("ego", "workspace")
@@ -219,8 +221,15 @@ def collect_diffs(a, b, out, path="", chain=(), limit=40, near=(None, None)):
     if type(a) is not type(b) or a != b:
         out.append(dict(path=path, what="value", a=repr(a)[:120], b=repr(b)[:120], node=chain[-1] if chain else None,
                         chain=list(chain[-5:]), lineno=None, near=list(near),
-                        impl_keeps_escapes=isinstance(a, str) and isinstance(b, str) and "\\" in a and _decodes_to(a, b)))
+                        impl_keeps_escapes=isinstance(a, str) and isinstance(b, str) and "\\" in a and _decodes_to(a, b),
+                        identifier_not_nfkc_normalised=isinstance(a, str) and isinstance(b, str) and not a.isascii()
+                        and path.rsplit(".", 1)[-1] in ("id", "arg", "attr", "name", "asname", "rest") and _nfkc(a) == b))
     return out
+
+
+def _nfkc(x):
+    import unicodedata
+    return unicodedata.normalize("NFKC", x)
 
 
 def _decodes_to(raw, want):
@@ -250,6 +259,7 @@ def annotate_diffs(diffs, src):
             import re
             seg = "\n".join(lines[near[0] - 1:near[1]])
             d["fstring_debug_specifier"] = bool(re.search(r"\{[^{}]*[^=!<>{}]=\s*(![rsa])?(:[^{}]*)?\}", seg))
+            d["fstring_escaped_brace_next_to_field"] = bool(re.search(r"\{\{\{|\}\}\}", seg))
         if d["what"] == "attr:end_col_offset" and d["node"] in ("Constant", "JoinedStr") and d.get("end_lineno"):
             # number of string tokens inside the node's span (implicit concatenation)
             seg = "\n".join(lines[ln - 1:d["end_lineno"]]) + "\n"
@@ -329,6 +339,9 @@ def features(tree):
     return sorted(fs)
 
 
+from c09_features import FEATURE_VERSION, features2
+
+
 def scenic_keywords():
     from scenic.syntax.parser import ScenicParser
     return sorted(set(ScenicParser.KEYWORDS) - set(keyword.kwlist))
@@ -403,6 +416,11 @@ def scan(paths, reserved):
         elif uses_matmul(tree):
             r["skip"] = "matmul-operator-is-scenic-vector-syntax"
         r["features"] = features(tree)
+        try:
+            r["fine"] = features2(tree, src)
+        except RecursionError:
+            r["fine"] = []
+        r["mtime"] = int(os.path.getmtime(p))
         r["nodes"] = sum(1 for _ in ast.walk(tree))
         names = {}
         for n in ast.walk(tree):
@@ -697,7 +715,7 @@ def main():
         fields = {k: list(getattr(ast, k)._fields) for k in MODEL_FIELDS}
         noattr = {k: ("lineno" not in getattr(ast, k)._attributes) for k in ("Load", "Store", "Del")}
         print(json.dumps(dict(fields=fields, expect=MODEL_FIELDS, ctx_noattr=noattr, reserved=scenic_keywords(),
-                              python=sys.version.split()[0])))
+                              python=sys.version.split()[0], feature_version=FEATURE_VERSION)))
     elif kind == "scan":
         print(json.dumps(dict(results=scan(req["paths"], set(req["reserved"])))))
     elif kind == "compare":
